@@ -65,7 +65,7 @@ def generate(rng, tier):
 
 
 def shape_key(case, results):
-    t = case[0].split()
+    t = (case[0].split() if case else []) + ["?", "?", "?"]
     if t[0] in ("smetric", "smetricw"): return "smetric-" + t[1]
     if t[0] == "vote": return "vote-hung"
     for r in results:
